@@ -142,6 +142,7 @@ pub struct Out {
     samples: Vec<String>,
     pub oracle_failures: u64,
     pub oracle_checks: u64,
+    by_class: BTreeMap<String, u64>,
     rule: String,
     exhaustive: Vec<String>,
 }
@@ -161,6 +162,7 @@ impl Out {
             samples: vec![],
             oracle_failures: 0,
             oracle_checks: 0,
+            by_class: BTreeMap::new(),
             rule: rule.to_string(),
             exhaustive: vec![],
         }
@@ -205,7 +207,10 @@ impl Out {
         self.oracle_checks += 1;
         if !ok {
             self.oracle_failures += 1;
-            if self.oracle_failures <= 2000 {
+            // the line budget is per class: failures of a known-finding class must not crowd out new ones
+            let n = self.by_class.entry(class.to_string()).or_insert(0);
+            *n += 1;
+            if *n <= 500 {
                 writeln!(self.oracle, "{}\t{}\t{}", class, id, what().replace('\n', " ")).unwrap();
             }
         }
@@ -300,5 +305,51 @@ pub fn guard_timeout_stack<T: Send + 'static>(ms: u64, stack: usize, f: impl FnO
         Ok(Ok(v)) => Ok(Some(v)),
         Ok(Err(p)) => Err(p),
         Err(_) => Ok(None),
+    }
+}
+
+// ---------------------------------------------------------------------------------------------
+// breadcrumb for crashes the process cannot survive (SIGSEGV / SIGABRT from memory corruption):
+// the description of the case in progress is kept in a static buffer and written to crash.txt
+// by an async-signal-safe handler
+static mut CRUMB: [u8; 4096] = [0; 4096];
+static CRUMB_LEN: std::sync::atomic::AtomicUsize = std::sync::atomic::AtomicUsize::new(0);
+static CRASH_FD: std::sync::atomic::AtomicI32 = std::sync::atomic::AtomicI32::new(-1);
+
+/// remember what is about to be run
+pub fn crumb(s: &str) {
+    let b = s.as_bytes();
+    let n = b.len().min(4096);
+    unsafe {
+        let dst = std::ptr::addr_of_mut!(CRUMB) as *mut u8;
+        std::ptr::copy_nonoverlapping(b.as_ptr(), dst, n);
+    }
+    CRUMB_LEN.store(n, std::sync::atomic::Ordering::SeqCst);
+}
+
+extern "C" fn crash_handler(sig: libc::c_int) {
+    let fd = CRASH_FD.load(std::sync::atomic::Ordering::SeqCst);
+    if fd >= 0 {
+        let n = CRUMB_LEN.load(std::sync::atomic::Ordering::SeqCst);
+        unsafe {
+            let head = b"signal while running: ";
+            libc::write(fd, head.as_ptr() as *const libc::c_void, head.len());
+            libc::write(fd, std::ptr::addr_of!(CRUMB) as *const libc::c_void, n);
+            libc::write(fd, b"\n".as_ptr() as *const libc::c_void, 1);
+        }
+    }
+    unsafe { libc::_exit(70 + (sig & 15)) }
+}
+
+/// write <outdir>/crash.txt if the process dies from a signal
+pub fn install_crash_handler(a: &Args) {
+    std::fs::create_dir_all(&a.out).ok();
+    let path = std::ffi::CString::new(a.out.join("crash.txt").to_str().unwrap()).unwrap();
+    let fd = unsafe { libc::open(path.as_ptr(), libc::O_WRONLY | libc::O_CREAT | libc::O_TRUNC, 0o644) };
+    CRASH_FD.store(fd, std::sync::atomic::Ordering::SeqCst);
+    for s in [libc::SIGSEGV, libc::SIGABRT, libc::SIGBUS, libc::SIGILL] {
+        unsafe {
+            libc::signal(s, crash_handler as usize);
+        }
     }
 }
